@@ -28,19 +28,19 @@ def sDeploy : Deploy → String
   | .orbital => "orbital"
 
 def parseObj (a : Array String) : Obj :=
-  { weather := pBool a[0]!, deployment_type := pDeploy a[1]!, name := pNat a[2]!, crew_day_time_remaining := pInt a[3]!, rep_time_surveyed := pInt a[4]!, rep_time_surveyed_current_day := pInt a[5]!, rep_time_spent_to_travel := pInt a[6]!, rep_survey_complete := pBool a[7]!, rep_survey_in_progress := pBool a[8]!, rep_survey_start_date := pOptInt a[9]!, rep_survey_completion_date := pOptInt a[10]!, rep_method := pOptNat a[11]!, env_workable := pBool a[12]!, env_survey_time := pInt a[13]!, env_travel_time := pInt a[14]! }
+  { weather := pBool a[0]!, deployment_type := pDeploy a[1]!, name := pNat a[2]!, crew_day_time_remaining := pInt a[3]!, rep_time_surveyed := pInt a[4]!, rep_time_surveyed_current_day := pInt a[5]!, rep_time_spent_to_travel := pInt a[6]!, rep_survey_complete := pBool a[7]!, rep_survey_in_progress := pBool a[8]!, rep_survey_start_date := pOptInt a[9]!, rep_survey_completion_date := pOptInt a[10]!, rep_method := pOptNat a[11]!, env_workable := pBool a[12]!, env_survey_time := pInt a[13]!, env_travel_time := pInt a[14]!, effects := [] }
 def showObj (o : Obj) (a : Array String) : String :=
-  String.intercalate " " [sBool o.weather, sDeploy o.deployment_type, toString o.name, toString o.crew_day_time_remaining, toString o.rep_time_surveyed, toString o.rep_time_surveyed_current_day, toString o.rep_time_spent_to_travel, sBool o.rep_survey_complete, sBool o.rep_survey_in_progress, sOptInt o.rep_survey_start_date, sOptInt o.rep_survey_completion_date, sOptNat o.rep_method, sBool o.env_workable, toString o.env_survey_time, toString o.env_travel_time]
+  String.intercalate " " [sBool o.weather, sDeploy o.deployment_type, toString o.name, toString o.crew_day_time_remaining, toString o.rep_time_surveyed, toString o.rep_time_surveyed_current_day, toString o.rep_time_spent_to_travel, sBool o.rep_survey_complete, sBool o.rep_survey_in_progress, sOptInt o.rep_survey_start_date, sOptInt o.rep_survey_completion_date, sOptNat o.rep_method, sBool o.env_workable, toString o.env_survey_time, toString o.env_travel_time, (if o.effects.isEmpty then "_" else String.intercalate ";" o.effects)]
 
 def call (name : String) (o : Obj) (a : Array String) : String :=
-  if name == "Method.survey_site" then let r := Method__Method__survey_site o (pInt a[15]!); showObj r.1 a ++ " | " ++ String.intercalate " " [toString r.2.1, sBool r.2.2.1, sBool r.2.2.2] else
+  if name == "Method.survey_site" then let r := Method__Method__survey_site o (pInt a[16]!); showObj r.1 a ++ " | " ++ String.intercalate " " [toString r.2.1, sBool r.2.2.1, sBool r.2.2.2] else
   "bad-op"
 
 partial def loop (h : IO.FS.Stream) : IO Unit := do
   let line ← h.getLine
   if line.isEmpty then return ()
   let toks := ((line.trimAscii.toString).splitOn " ").toArray
-  if toks.size < 16 then IO.println "bad-op" else
+  if toks.size < 17 then IO.println "bad-op" else
     IO.println (call toks[0]! (parseObj (toks.extract 1 toks.size)) (toks.extract 1 toks.size))
   loop h
 
